@@ -1,4 +1,6 @@
 
+val xorb : bool -> bool -> bool
+
 val negb : bool -> bool
 
 type nat =
@@ -42,6 +44,8 @@ type positive =
 type n =
 | N0
 | Npos of positive
+
+val eqb0 : bool -> bool -> bool
 
 module Nat :
  sig
@@ -127,6 +131,8 @@ module Coq_Pos :
 
   val coq_land : positive -> positive -> n
 
+  val ldiff : positive -> positive -> n
+
   val coq_lxor : positive -> positive -> n
 
   val shiftl : positive -> n -> positive
@@ -145,6 +151,10 @@ module N :
   val succ_double : n -> n
 
   val double : n -> n
+
+  val succ : n -> n
+
+  val pred : n -> n
 
   val succ_pos : n -> positive
 
@@ -184,6 +194,8 @@ module N :
 
   val coq_land : n -> n -> n
 
+  val ldiff : n -> n -> n
+
   val coq_lxor : n -> n -> n
 
   val shiftl : n -> n -> n
@@ -195,6 +207,8 @@ module N :
   val to_nat : n -> nat
 
   val of_nat : nat -> n
+
+  val ones : n -> n
  end
 
 val hd : 'a1 -> 'a1 list -> 'a1
@@ -734,6 +748,8 @@ val vxor : n list -> n list -> n list
 val enc :
   cparams -> nat -> n list list -> (((((n * n) * n) * n) * n) * n) -> n list
 
+val append : positive -> positive -> positive
+
 module PositiveMap :
  sig
   type key = positive
@@ -749,6 +765,10 @@ module PositiveMap :
   val find : key -> 'a1 t -> 'a1 option
 
   val add : key -> 'a1 -> 'a1 t -> 'a1 t
+
+  val xelements : 'a1 t -> key -> (key * 'a1) list
+
+  val elements : 'a1 t -> (key * 'a1) list
  end
 
 val fmul_key : n -> n -> positive
@@ -959,6 +979,78 @@ val dec_add : mode -> decoder -> ((n * n) * n list) -> decoder outcome
 val dec_decode :
   mode -> decoder -> ((n * n) * n list) -> (n list option * decoder) outcome
 
+type srow = (positive * n) list
+
+type smat = srow PositiveMap.t
+
+val ckey : n -> positive
+
+type fop =
+| FAdd of n * n
+| FMul of n * n
+| FFMA of n * n * n
+
+val sadd : srow -> srow -> srow
+
+val sscale : n -> srow -> srow
+
+val get_row : smat -> n -> srow
+
+val set_row : smat -> n -> srow -> smat
+
+val fapply : fop -> smat -> smat
+
+val fapply_ops : fop list -> smat -> smat
+
+val fop_valid : n -> fop -> bool
+
+val srow_wfb : srow -> bool
+
+val smat_wfb : smat -> bool
+
+val srow_is_unit : n -> srow -> bool
+
+val check_units : smat -> n -> n -> n list -> bool
+
+val check_cert_fast : n -> n -> smat -> fop list -> n list -> bool
+
+val sval : positive -> srow -> n
+
+val srow_of_dense_from : n -> n list -> srow
+
+val srow_of_dense : n list -> srow
+
+val nodup_from : unit PositiveMap.t -> n list -> bool
+
+val nodup_fast : n list -> bool
+
+val decode_plan : n list -> (fop list * n list) option
+
+val enc_matrix_m : mode -> n -> n list list outcome
+
+val enc_matrix : n -> n list list outcome
+
+val sins : positive -> n -> srow -> srow
+
+val sset1 : n -> srow -> srow
+
+val sset : n -> n -> smat -> n -> n -> smat outcome
+
+val set_ldpc_s : n -> n -> n -> n -> n -> n -> smat -> smat outcome
+
+val set_enc_s :
+  mode -> n -> n -> n -> n -> n -> n -> n -> n list -> smat -> smat outcome
+
+val put_rows : smat -> n -> srow list -> smat
+
+val range_from : nat -> n -> n list
+
+val enc_matrix_sparse : n -> smat outcome
+
+val fma_scalar_ok : fop -> bool
+
+val cert_ok : n -> n list -> bool
+
 val argn : n list -> nat -> n
 
 val cfg_of : n list -> cfg
@@ -1005,6 +1097,10 @@ val run_spec_layout_packets : n list -> n list
 val decode_ops : nat -> n list -> symbol_op list
 
 val run_slab_replay : mode -> n list -> n list
+
+val run_cert_ok : n list -> n list
+
+val run_check_intermediate : n list -> n list
 
 type bvec = n list * n
 
@@ -1178,6 +1274,214 @@ val run_spec_bits : n list -> n list
 
 val run_kern : n -> n list -> n list
 
+type bitmat = { bh : nat; bw : nat; cell : bool list list;
+                defd : bool list list }
+
+val tab : nat -> nat -> (nat -> nat -> bool) -> bool list list
+
+val bm_get : bitmat -> nat -> nat -> bool
+
+val bm_def : bitmat -> nat -> nat -> bool
+
+val bm_make :
+  nat -> nat -> (nat -> nat -> bool) -> (nat -> nat -> bool) -> bitmat
+
+val swp : nat -> nat -> nat -> nat
+
+val bm_new : nat -> nat -> bitmat
+
+val bm_set : bitmat -> nat -> nat -> bool -> bitmat
+
+val bm_swap_rows : bitmat -> nat -> nat -> bitmat
+
+val bm_swap_columns : bitmat -> nat -> nat -> nat -> bitmat
+
+val bm_add_assign_rows : bitmat -> nat -> nat -> nat -> bitmat
+
+val bm_resize : bitmat -> nat -> nat -> bitmat
+
+val bm_hint_column_dense_and_frozen : bitmat -> nat -> bitmat
+
+val bm_enable_column_access_acceleration : bitmat -> bitmat
+
+val bm_disable_column_access_acceleration : bitmat -> bitmat
+
+val q_count_ones : (nat -> nat -> bool) -> nat -> nat -> nat -> nat
+
+val q_row : (nat -> nat -> bool) -> nat -> nat -> nat -> (nat * bool) list
+
+val q_ones_in_column : (nat -> nat -> bool) -> nat -> nat -> nat -> nat list
+
+val q_sub_row : (nat -> nat -> bool) -> nat -> nat -> nat -> bool list
+
+val q_non_zero_columns : (nat -> nat -> bool) -> nat -> nat -> nat -> nat list
+
+val bm_count_ones : bitmat -> nat -> nat -> nat -> nat
+
+val bm_row : bitmat -> nat -> nat -> nat -> (nat * bool) list
+
+val bm_ones_in_column : bitmat -> nat -> nat -> nat -> nat list
+
+val bm_sub_row : bitmat -> nat -> nat -> bool list
+
+val bm_non_zero_columns : bitmat -> nat -> nat -> nat list
+
+type op =
+| OSet of n * n * n
+| OGet of n * n
+| OSwapRows of n * n
+| OSwapCols of n * n * n
+| OAddRows of n * n * n
+| OResize of n * n
+| OCountOnes of n * n * n
+| ORowIter of n * n * n
+| OOnesInCol of n * n * n
+| OSubRow of n * n
+| ONonZeroCols of n * n
+| OFreeze of n
+| OEnableAccel
+| ODisableAccel
+
+type ans =
+| ABit of bool
+| ANat of nat
+| ARow of (nat * bool) list
+| ANats of nat list
+| ABits of bool list
+
+val all_def_row : bitmat -> nat -> nat -> nat -> bool
+
+val all_def_col : bitmat -> nat -> nat -> nat -> bool
+
+val hint_ok : bitmat -> nat -> nat -> nat -> bool
+
+val adm : op -> bitmat -> bool
+
+val bm_step : bitmat -> op -> bitmat * ans option
+
+val upd : 'a1 list -> nat -> 'a1 -> 'a1 list
+
+val vget : n list -> n -> n outcome
+
+val vset : n list -> n -> n -> n list outcome
+
+val vswap : n list -> n -> n -> n list outcome
+
+val slice_ok : n list -> n -> n -> n list outcome
+
+val range_from0 : n -> n -> n list
+
+val ofold1 : ('a1 -> 'a2 -> 'a1 outcome) -> 'a2 list -> 'a1 -> 'a1 outcome
+
+val ofilter : ('a1 -> bool outcome) -> 'a1 list -> 'a1 list outcome
+
+val map3 : ('a1 -> 'a2 -> 'a3) -> 'a1 list -> 'a2 list -> 'a3 list
+
+val pop_pos : positive -> n
+
+val popcount : n -> n
+
+type dmat = { height : n; width : n; elements0 : n list }
+
+val wORD_WIDTH0 : n
+
+val word_offset : n -> n
+
+val row_word_width : dmat -> n
+
+val bit_position : dmat -> n -> n -> n * n
+
+val select_mask0 : n -> n
+
+val not64 : n -> n
+
+val select_all_right_of_mask : n -> n
+
+val select_bit_and_all_left_mask : n -> n
+
+val clear_bit : n -> n -> n
+
+val set_bit : n -> n -> n
+
+val dm_new : n -> n -> dmat
+
+val with_elements : dmat -> n list -> dmat
+
+val dm_set : dmat -> n -> n -> n -> dmat outcome
+
+val dm_get : dmat -> n -> n -> n outcome
+
+val dm_count_ones : bool -> dmat -> n -> n -> n -> n outcome
+
+val iter_dense : nat -> n list -> n -> n -> n -> n -> (n * n) list outcome
+
+val dm_get_row_iter : bool -> dmat -> n -> n -> n -> (n * n) list outcome
+
+val dm_get_ones_in_column : dmat -> n -> n -> n -> n list outcome
+
+val dm_get_sub_row_as_octets : dmat -> n -> n -> (n list * n) outcome
+
+val bov_padding_bits : n -> n
+
+val bov_unpack : nat -> n list -> n -> n -> ((n list * n) * n) outcome
+
+val bov_to_octet_vec : n list -> n -> n list outcome
+
+val dm_query_non_zero_columns : dmat -> n -> n -> n list outcome
+
+val dm_swap_rows : dmat -> n -> n -> dmat outcome
+
+val swap_columns_row :
+  n -> n -> n -> n -> n -> n -> n -> n list -> n -> n list outcome
+
+val dm_swap_columns : dmat -> n -> n -> n -> dmat outcome
+
+val dm_enable_column_access_acceleration : dmat -> dmat
+
+val dm_disable_column_access_acceleration : dmat -> dmat
+
+val dm_hint_column_dense_and_frozen : dmat -> n -> dmat
+
+val get_both_ranges : n list -> n -> n -> n -> (n list * n list) outcome
+
+val add_assign_binary : n list -> n list -> n list outcome
+
+val splice : n list -> n -> n list -> n list
+
+val dm_add_assign_rows : dmat -> n -> n -> n -> dmat outcome
+
+val resize_loop : nat -> n list -> n -> n -> n -> n -> (n list * n) outcome
+
+val dm_resize : dmat -> n -> n -> dmat outcome
+
+val nz : n -> bool
+
+val b2n0 : bool -> n
+
+val dm_step : bool -> dmat -> op -> (dmat * ans option) outcome
+
+val decode_op : n list -> op option
+
+val enc_ans : ans option -> n list
+
+val dm_run_from : bool -> dmat -> n list list -> n list list
+
+val dm_run : bool -> n -> n -> n list list -> n list list
+
+val bm_run_from : bitmat -> n list list -> n list list
+
+val bm_run : n -> n -> n list list -> n list list
+
+val split_ops : nat -> n list -> n list list
+
+val flat_rows : n list list -> n list
+
+val run_bm_dense : bool -> n list -> n list
+
+val run_bm_spec : n list -> n list
+
+val run_mat : n -> n list -> n list
+
 val pcode : pclass -> n
 
 val enc1 : n outcome -> n list
@@ -1188,7 +1492,7 @@ val arg : n list -> nat -> n
 
 val run_octet : n -> n list -> n list
 
-val b2n0 : bool -> n
+val b2n1 : bool -> n
 
 val enc_pid : (n * n) outcome -> n list
 
